@@ -10,7 +10,10 @@ package ledger
 // States. A population of 5 index positions; position i owns
 //   - box name_i of app P0, names "a", "a\x00", "ab", "b", "\xff" (prefix-sharing);
 //   - B's holding of asset X_i and B's local state of app P_i (X_i, P_i created by A in round 1);
-//   - an asset Y_i and an app Q_i created (and destroyed) by A itself.
+//   - an asset Y_i and an app Q_i created (and destroyed) by A itself; A also opts into its own
+//     Q_i when creating it and, at positions 0/2/4, closes out again in the next round (opted
+//     in on disk + closed out in deltas; created, opted in and closed out all in deltas).
+// The box of position 1 ("a\x00") always has a ZERO-LENGTH value.
 // Each position has a placement in {absent, on disk, created in deltas, on disk but deleted
 // in deltas, on disk + deleted in deltas + re-created in deltas (new value; new id for Y/Q)}.
 // A placement vector is realised by round 2 (things that must be on disk), round 3
@@ -48,6 +51,10 @@ package ledger
 //     anything merged beyond dbMaxID is cut by the final sort+truncate; replaced by:
 //  M5 acctupdates.go LookupKvPairsByPrefix delta walk: `keyInRound <= cursor` -> `<` DETECTED
 //  M6 acctupdates.go lookupApplicationResources: creator-only DB rows dropped      DETECTED
+//  Independently seeded (/verif/seeded): C10-A, C10-B DETECTED; C10-r2A (creator that opted into
+//  and closed out of its own app in deltas listed twice) and C10-r2B (zero-length box in the
+//  deltas treated as deleted) were MISSED by the first version and are DETECTED since the
+//  creator's own local state and the zero-length box were added to the population.
 
 import (
 	"bytes"
@@ -82,6 +89,8 @@ var c10BoxNames = []string{"a", "a\x00", "ab", "b", "\xff"}
 
 const c10N = 5
 
+const c10Per = 7 // transactions emitted by one "create" group
+
 const (
 	c10FlushEarly  = iota // lookback 0: flush right after round 2
 	c10FlushLate          // lookback 2: flush after round 4 (persists rounds 1-2)
@@ -99,6 +108,14 @@ type c10State struct {
 	scans   int64
 	pages   int64
 	classes map[string]struct{}
+}
+
+// c10BoxVal: the box of position 1 ("a\x00") always has a ZERO-LENGTH value.
+func c10BoxVal(i int, r basics.Round) []byte {
+	if i == 1 {
+		return []byte{}
+	}
+	return c10Val(i, r)
 }
 
 func c10Val(i int, r basics.Round) []byte {
@@ -167,28 +184,43 @@ func c10Build(w *c08World, place [c10N]int, mode int) (*c10State, error) {
 	st.boxApp = st.p[0]
 	// own[i] = live (Y_i, Q_i) ids
 	var ownAsset, ownApp [c10N]uint64
-	create := func(i int, r basics.Round) []*txntest.Txn {
+	// create emits c10Per transactions; basePos is the index of the first one in its block, so
+	// that the id of the app created by the 6th can be predicted (TxnCounter + position) and A
+	// can opt into its own new app in the same block.
+	create := func(i int, r basics.Round, basePos int) []*txntest.Txn {
+		hdr, _ := h.l.BlockHdr(h.l.Latest())
+		newApp := basics.AppIndex(hdr.TxnCounter + uint64(basePos) + 6)
 		return []*txntest.Txn{
-			w.txBoxPut(w.A, basics.AppIndex(st.boxApp), c10BoxNames[i], c10Val(i, r)),
+			w.txBoxPut(w.A, basics.AppIndex(st.boxApp), c10BoxNames[i], c10BoxVal(i, r)),
 			w.txAssetXfer(w.B, w.B, basics.AssetIndex(st.x[i]), 0),
 			w.txAssetXfer(w.A, w.B, basics.AssetIndex(st.x[i]), uint64(i+1)+uint64(r)),
 			w.txAppCall(w.B, basics.AppIndex(st.p[i]), transactions.OptInOC, []byte("lset"), c10Val(i, r)),
 			w.txAssetCreate(w.A, fmt.Sprintf("y%d", i)),
 			w.txAppCreate(w.A),
+			w.txAppCall(w.A, newApp, transactions.OptInOC, []byte("lset"), c10Val(i, r)),
 		}
 	}
-	remove := func(i int) []*txntest.Txn {
-		return []*txntest.Txn{
+	// positions 0, 2, 4: the creator closes out of its own app in the round after creating it
+	closesOut := func(i int) bool { return i%2 == 0 }
+	closeOut := func(i int) *txntest.Txn {
+		return w.txAppCall(w.A, basics.AppIndex(ownApp[i]), transactions.CloseOutOC)
+	}
+	remove := func(i int, optedIn bool) []*txntest.Txn {
+		var pre []*txntest.Txn
+		if optedIn {
+			pre = append(pre, closeOut(i))
+		}
+		return append(pre, []*txntest.Txn{
 			w.txBoxDel(w.A, basics.AppIndex(st.boxApp), c10BoxNames[i]),
 			w.txAssetCloseOut(w.B, w.A, basics.AssetIndex(st.x[i])),
 			w.txAppCall(w.B, basics.AppIndex(st.p[i]), transactions.CloseOutOC),
 			w.txAssetDestroy(w.A, basics.AssetIndex(ownAsset[i])),
 			w.txAppCall(w.A, basics.AppIndex(ownApp[i]), transactions.DeleteApplicationOC),
-		}
+		}...)
 	}
 	// record the ids created by `create` calls in the block just added
 	recordOwn := func(order []int, shift int) error {
-		const per = 6
+		const per = c10Per
 		if len(h.LastBlock.Payset) < shift+per*len(order) {
 			return fmt.Errorf("harness: payset shorter than expected")
 		}
@@ -197,6 +229,9 @@ func c10Build(w *c08World, place [c10N]int, mode int) (*c10State, error) {
 			ownApp[i] = uint64(h.LastBlock.Payset[shift+k*per+5].ApplyData.ApplicationID)
 			if ownAsset[i] == 0 || ownApp[i] == 0 {
 				return fmt.Errorf("harness: created ids missing")
+			}
+			if got := h.LastBlock.Payset[shift+k*per+6].Txn.ApplicationID; uint64(got) != ownApp[i] {
+				return fmt.Errorf("harness: predicted app id %d, created %d", got, ownApp[i])
 			}
 		}
 		return nil
@@ -208,7 +243,7 @@ func c10Build(w *c08World, place [c10N]int, mode int) (*c10State, error) {
 	for i := 0; i < c10N; i++ {
 		if place[i] == c10Disk || place[i] == c10DeltaDeleted || place[i] == c10Recreated {
 			order = append(order, i)
-			txs = append(txs, create(i, 2)...)
+			txs = append(txs, create(i, 2, len(txs))...)
 		}
 	}
 	if err := block("round-2", txs); err != nil {
@@ -227,12 +262,17 @@ func c10Build(w *c08World, place [c10N]int, mode int) (*c10State, error) {
 	for i := 0; i < c10N; i++ {
 		if place[i] == c10DeltaCreated {
 			order = append(order, i)
-			txs = append(txs, create(i, 3)...)
+			txs = append(txs, create(i, 3, len(txs))...)
 		}
 	}
 	for i := 0; i < c10N; i++ {
 		if place[i] == c10DeltaDeleted || place[i] == c10Recreated {
-			txs = append(txs, remove(i)...)
+			txs = append(txs, remove(i, true)...)
+		}
+	}
+	for i := 0; i < c10N; i++ {
+		if place[i] == c10Disk && closesOut(i) {
+			txs = append(txs, closeOut(i)) // opted in on disk, closed out in deltas
 		}
 	}
 	if err := block("round-3", txs); err != nil {
@@ -246,7 +286,12 @@ func c10Build(w *c08World, place [c10N]int, mode int) (*c10State, error) {
 	for i := 0; i < c10N; i++ {
 		if place[i] == c10Recreated {
 			order = append(order, i)
-			txs = append(txs, create(i, 4)...)
+			txs = append(txs, create(i, 4, len(txs))...)
+		}
+	}
+	for i := 0; i < c10N; i++ {
+		if place[i] == c10DeltaCreated && closesOut(i) {
+			txs = append(txs, closeOut(i)) // created, opted in and closed out, all in deltas
 		}
 	}
 	if err := block("round-4", txs); err != nil {
